@@ -14,6 +14,8 @@ CONSTANTS
   MaxOld = 2
   Transports <- TrSCION
   ScmpTypes <- ScmpAll
+  HdrStates <- HdrStr16
+  HdrPct = 0
   Exhaustive = TRUE
   Biases <- BiasOne
   TickPct = 0
